@@ -271,7 +271,11 @@ Qed.
 (* THE LAST CLAUSE, full statement: for EVERY pipeline tail -- any number of refinement / filter /
    validation steps in any order, repetitions included, any methods and parameters -- run on products in
    which every valid pixel lies in the requested interval [dmin, dmax], the run completes and every
-   valid pixel of the final map holds a finite disparity of [dmin, dmax]. *)
+   valid pixel of the final map holds a finite disparity of [dmin, dmax].
+   (Stated for "the" products of a run; the state machine applies the SAME functions to the right products when
+   cross_checking_accurate is on -- filter_disparity(right_disparity), subpixel_refinement(right_cv, right_disparity),
+   disparity_checking(right_disparity, left_disparity), interpolated_disparity(right_disparity) -- so the right map is
+   the instance [c_dmin, c_dmax] = first / last coordinate of the right volume, [other] = the left dataset.) *)
 Theorem C09_final_disp_in_global_interval : forall X steps st0,
   ctx_ok X -> Forall (step_ok X) steps ->
   Spec.Interp.never_both (c_ny X) (c_nx X) (p_mask st0) ->
